@@ -74,7 +74,16 @@ func (r *raceLog) poll() []raceReport {
 			frame := "?"
 			for _, m := range frameRe.FindAllStringSubmatch(p, -1) {
 				fn := m[1]
-				if strings.HasPrefix(fn, "runtime.") || strings.HasPrefix(fn, "internal/") || strings.HasPrefix(fn, "sync/atomic.") || strings.HasPrefix(fn, "sync.") {
+				// the access is attributed to the first frame that is neither runtime / standard
+				// library plumbing nor the simulated transport copying the caller's buffer (a real
+				// connection does that copy in the kernel, on behalf of the same caller)
+				skip := false
+				for _, pre := range []string{"runtime.", "internal/", "sync/atomic.", "sync.", "net.", "io.", "bufio.", "bytes.", "encoding/binary.", "verif/simnet.", "verif/vrt/"} {
+					if strings.HasPrefix(fn, pre) {
+						skip = true
+					}
+				}
+				if skip {
 					continue
 				}
 				frame = fn
